@@ -485,7 +485,7 @@ def bounded_histories(tier, seed):
                 failures.append({'function': 'txdbus.bus.Bus.name-table', 'clause': 'history', 'input': [list(o) for o in hist], 'detail': f})
                 return n, failures
     ops = all_ops(4)
-    for _ in range(3000 if tier == 'thorough' else 600):
+    for _ in range(30000 if tier == 'thorough' else 600):
         hist = [rnd.choice(ops) for _ in range(rnd.randrange(3, 14))]
         n += 1
         f = run_history(hist)
@@ -509,7 +509,7 @@ def replay(function, clause, model):
 def run_bounded(tier, seed):
     n, failures = bounded_histories(tier, seed)
     return {'tool': 'history enumeration against a reference model of the name table (real Bus / BusProtocol objects)',
-            'bound': 'all histories of length <= %d over 3 clients x 1 name x {6 flag sets, release, disconnect}; %s random histories of length 3..13 over 4 clients x 2 names x 8 flag sets' % (3 if tier == 'thorough' else 2, 3000 if tier == 'thorough' else 600),
+            'bound': 'all histories of length <= %d over 3 clients x 1 name x {6 flag sets, release, disconnect}; %s random histories of length 3..13 over 4 clients x 2 names x 8 flag sets' % (3 if tier == 'thorough' else 2, 30000 if tier == 'thorough' else 600),
             'evaluations': n, 'failures': failures}
 
 
